@@ -162,7 +162,8 @@ func relayout(r *Rand, src string, style int) (string, string) {
 		lastCode = lastCode[:k]
 	}
 	lastIsLabel := strings.HasSuffix(strings.TrimSpace(lastCode), ":") || strings.TrimSpace(lastCode) == ""
-	if lastIsLabel || r.Chance(2, 3) {
+	_ = lastIsLabel // until /repo 'fix: a label on the last line needs no final newline' a label had to be followed by a line end
+	if r.Chance(2, 3) {
 		s += eol
 		if r.Chance(1, 4) {
 			s += eol + eol
@@ -243,7 +244,7 @@ func relayoutRaw(r *Rand, src string) (string, string) {
 }
 
 func init() {
-	props["C12"] = propCheck{run: func(env *Env, rep *Report) {
+	props["C12"] = propCheck{needCLI: true, run: func(env *Env, rep *Report) {
 		env.InitBaseline()
 		r := NewRand(env.Seed, "C12")
 		n, nv := 400, 6
@@ -270,16 +271,41 @@ func init() {
 			cases = append(cases, c)
 		}
 		rep.Extra["corpus_programs"] = len(cnames)
-		rep.Rule = "the book programs of /repo/test (copied to corpus/book) under line-level re-layouts, and seeded programs (labels, EQUs, data with strings containing ; # , and quotes, GLOBAL, both modes) rendered canonically and in token-preserving re-layouts: ';' and '#' comments (text with quotes, commas, brackets, Japanese) after any statement or on their own lines, blank lines, indentation of any statement including labels, tabs/spaces, 0-2 blanks around commas, operators, parentheses and inside brackets, trailing whitespace, LF/CRLF/CR, final newline present/absent after a non-label statement; " +
-			"only gaps where NASK lexically allows whitespace are varied; oracle: every re-layout assembles to the bytes of the canonical layout; distinct = (mode, origin, size bucket) cells; each case carries several layouts"
+		rep.Rule = "the book programs of /repo/test (copied to corpus/book) under line-level re-layouts, and seeded programs (labels, EQUs, data with strings containing ; # , and quotes, GLOBAL, both modes) rendered canonically and in token-preserving re-layouts: ';' and '#' comments (text with quotes, commas, brackets, Japanese) after any statement or on their own lines, blank lines, indentation of any statement including labels, tabs/spaces, 0-2 blanks around commas, operators, parentheses and inside brackets, trailing whitespace, LF/CRLF/CR, final newline present/absent; " +
+			"only gaps where NASK lexically allows whitespace are varied; a part of the programs also goes through the real command (cmd/gosk) in layouts that only its file reading could treat differently: physical lines of 65535, 65536 and 70000 bytes (comment, trailing blanks, gap after the mnemonic), 9000 extra lines with LF and CRLF ends, 10^5 blank lines, no final newline; the command must leave the bytes and exit status of the canonical layout; oracle: every re-layout assembles to the bytes of the canonical layout; distinct = (mode, origin, size bucket) cells; each case carries several layouts"
+		// the same property through the real command: layouts that only the file-reading side could treat differently
+		ncli := 0
+		for i, k := range cnames {
+			if strings.Contains(k, "day01") || strings.Contains(k, "day02") {
+				continue
+			}
+			if env.Tier == "quick" && i%3 != int(env.Seed%3) {
+				continue
+			}
+			cl := cliLayouts(asciiOnly(corpus[k]), "book")
+			ncli += len(cl)
+			cases = append(cases, cl...)
+		}
+		for i := 0; i < 3; i++ {
+			p, _ := genLabelled(r, Pick(r, []int{16, 32}), Pick(r, []int64{-1, 0x7c00}), genOpts{Equs: true, Jumps: true})
+			cl := cliLayouts(asciiOnly(p.Source()), "generated")
+			ncli += len(cl)
+			cases = append(cases, cl...)
+		}
+		rep.Extra["layouts_through_the_command"] = ncli
 		outs := RunCases(env, cases)
 		nl := 0
 		for _, c := range cases {
-			nl += len(c.(*VariantCase).Variants)
+			if vc, ok := c.(*VariantCase); ok {
+				nl += len(vc.Variants)
+			}
 		}
 		rep.Extra["layouts_compared"] = nl
 		for i := 0; i < len(cases) && len(rep.Samples) < 3; i += len(cases)/3 + 1 {
-			vc := cases[i].(*VariantCase)
+			vc, ok := cases[i].(*VariantCase)
+			if !ok {
+				continue
+			}
 			rep.AddSample(map[string]any{"canonical": clipStr(string(vc.Base), 600), "relayout": clipStr(string(vc.Variants[0]), 900), "what": vc.Labels[0], "verdict": outs[i].Status.String()})
 		}
 		rep.Add(cases, outs)
